@@ -643,9 +643,18 @@ def _camel(s: str) -> str:
 ALIASERS: Dict[str, Optional[Callable[[str], str]]] = {"none": None, "suffix": _suffix, "camel": _camel}
 
 
-def run(report, tier: str, seed: int):
+_KINDS = None
+
+
+def run(report, tier: str, seed: int, kinds=None, log_name: str = "validators_gating"):
+    """kinds: when given, only the failures of these kinds (prefix of the signature) are reported --
+    used by the C01 / C02 / C03 checks, whose statements also cover objects with validators
+    (acceptance and image, error listing, crash-freedom) but not the gating rules of C10"""
     from apischema import ValidationError
     from apischema.deserialization import deserialization_method
+
+    global _KINDS
+    _KINDS = tuple(kinds) if kinds else None
 
     rng = random.Random(seed)
     nmax, kmax = (3, 4) if tier == "quick" else (4, 4)
@@ -653,7 +662,7 @@ def run(report, tier: str, seed: int):
     optnames = ["none", "suffix"] if tier == "quick" else ["none", "suffix", "camel"]
     types = systematic_types(tier) + random_types(rng, n_random, nmax, kmax)
     log = report.driver(
-        "validators_gating",
+        log_name,
         bound=f"{len(types)} generated dataclasses ({len(types) - n_random} systematic: every dependency structure of 1..2 validators over 1..2 fields x declaration form; {n_random} seeded random with 1..{nmax} fields, 1..{kmax} validators) x dynamic aliaser {optnames} x every assignment of each field to absent / valid / ill-typed (/ rejected by its field validator) x every pass/fail outcome of the validators (+ 2 data with an unexpected key per type)",
     )
     log.rule(
@@ -767,6 +776,8 @@ def _run_type(log, rt, t: TS, cls, optname: str, rng: random.Random, deserializa
     for sig, summary, case, obs, exp in failures[best]:
         # at most 3 failing cases per (type, aliaser, kind of failure): more add no information
         kind = sig.split(":")[0]
+        if _KINDS is not None and kind not in _KINDS:
+            continue
         per_kind[kind] = per_kind.get(kind, 0) + 1
         if per_kind[kind] > 3:
             continue
